@@ -10,6 +10,7 @@ Local Open Scope list_scope.
 Section P4.
   Variable V : Type.
   Variable bin : binop -> V -> V -> V.
+  Variable un : unop -> V -> V.
   Variable falsy : V -> bool.
   Notation snode := (snode V).
   Notation pspec := (pspec V).
@@ -46,7 +47,7 @@ Section P4.
   (* supplying the same value for each path yields equal instances *)
   Theorem equiv_instance (n n' : snode) (pv : list (path * V)) :
     equiv n n' -> wf V (tree n) ->
-    inst_from_paths V bin (tree n') pv = inst_from_paths V bin (tree n) pv.
+    inst_from_paths V bin un (tree n') pv = inst_from_paths V bin un (tree n) pv.
   Proof. intros Q W. destruct (equiv_tree V n n' Q) as [s [Hi E]]. rewrite E. apply inst_from_paths_ren; assumption. Qed.
 
   (* ---------- pickle and database: the ModelTree itself is unchanged (order included) ---------- *)
@@ -95,10 +96,10 @@ Section P4.
     intro P. destruct f; simpl; [|reflexivity|].
     - apply andb_true_iff. split; [|apply all_occs_true; reflexivity].
       apply (forall_nodes_impl plain_node); [|exact P].
-      intros [p sp|v|items|[cls ctor| |idx|o|cls ctor] ch asr] Hm; cbn [plain_node dict_node_ok] in *; auto.
+      intros [p sp|v|items|[cls ctor| |idx|o|uo|cls ctor] ch asr] Hm; cbn [plain_node dict_node_ok] in *; auto.
       apply negb_true_iff in Hm. cbn [as_instance]. rewrite Hm. reflexivity.
     - apply andb_true_iff. split; [|apply all_occs_true; reflexivity].
-      apply (forall_nodes_impl plain_node); [|exact P]. intros [p sp|v|items|[cls ctor| |idx|o|cls ctor] ch asr]; simpl; auto.
+      apply (forall_nodes_impl plain_node); [|exact P]. intros [p sp|v|items|[cls ctor| |idx|o|uo|cls ctor] ch asr]; simpl; auto.
   Qed.
 
   Lemma no_priors_smap (f : nat -> pspec -> nat * pspec) (s : nat -> nat) (n : snode) :
